@@ -143,10 +143,17 @@ def d2(ctx, prog):
               'C02-D2', key + ' data', f'update receives data=`{norm(da)}`, not the intermediate values of the same batch\'s metadata',
               'data = intermediate values of the same batch\'s metadata', proc.where(c))
     civ = base.methods['compute_intermediate_values']
-    rets = [r.value for r in ast.walk(civ.node) if isinstance(r, ast.Return)]
     mp = [p for p in civ.params if p != 'self'][0]
-    ctx.check(len(rets) == 1 and norm(rets[0]).replace(' ', '') == f'self.model(self.selection_function(**{mp}))', 'C02-D2', f'{civ.key}::return',
-              f'intermediate values are `{norm(rets[0]) if rets else "?"}`, not model(selection_function(**metadata))', 'intermediate values = model(selection_function(**metadata))', civ.where())
+    rp = astutil.return_paths(civ.node)
+    e_ = rp[0][1] if rp and len(rp) == 1 else None
+    if isinstance(e_, ast.Call) and norm(e_.func) == 'self.model' and len(e_.args) + len(e_.keywords) == 1:
+        inner_ = e_.args[0] if e_.args else e_.keywords[0].value
+        ok_ = isinstance(inner_, ast.Call) and norm(inner_.func) == 'self.selection_function' and not inner_.args and len(inner_.keywords) == 1 \
+            and inner_.keywords[0].arg is None and norm(inner_.keywords[0].value) == mp
+        ctx.check(ok_, 'C02-D2', f'{civ.key}::return', f'intermediate values are `{norm(e_)[:70]}`: the model is not applied to selection_function(**{mp})',
+                  'intermediate values = model(selection_function(**metadata))', civ.where())
+    else:
+        ctx.undecided('C02-D2', f'{civ.key}::return', f'intermediate values `{norm(e_)[:70] if e_ is not None else "?"}` not of the form model(selection_function(**metadata))', civ.where())
     # wrapper
     w = prog.need_class(CT, '_TracesBatchWrapper')
     s, m = w.getters.get('samples'), w.getters.get('metadatas')
@@ -201,16 +208,25 @@ def d3(ctx, prog, s):
     sf = cont.methods['_set_frame']
     st = [n for n in ast.walk(sf.node) if isinstance(n, ast.Assign) and self_attr(n.targets[0]) == 'frame']
     fp = [p for p in sf.params if p != 'self'][0]
-    good = len(st) == 1 and norm(st[0].value).replace(' ', '') in (f'{fp}if{fp}isnotNoneelse...', fp)
     reb = [n for n in ast.walk(sf.node) if isinstance(n, ast.Assign) and isinstance(n.targets[0], ast.Name) and n.targets[0].id == fp]
-    ctx.check(good and not reb, 'C02-D3', f'{sf.key}::stores frame', f'the frame given to the Container is transformed before it is stored (`{norm(reb[0]) if reb else norm(st[0].value) if st else "?"}`): '
-              f'index lists must be applied as given (order and repetitions included)', 'frame stored as given (None -> Ellipsis)', sf.where())
+    kinds_ = [astutil.passthrough_kind(n.value, fp) for n in st + reb]
+    if len(st) != 1 or 'unknown' in kinds_:
+        ctx.undecided('C02-D3', f'{sf.key}::stores frame', f'how the frame is stored (`{norm((st + reb)[kinds_.index("unknown")].value)[:60] if "unknown" in kinds_ else "?"}`) is not understood', sf.where())
+    else:
+        bad_ = [n for n, k_ in zip(st + reb, kinds_) if k_ == 'derived']
+        ctx.check(not bad_, 'C02-D3', f'{sf.key}::stores frame', f'the frame given to the Container is transformed before it is stored (`{norm(bad_[0])[:70] if bad_ else ""}`): '
+                  f'index lists must be applied as given (order and repetitions included)', 'frame stored as given (None -> Ellipsis)', sf.where())
     sp = cont.methods['_set_preprocesses']
     st = [n for n in ast.walk(sp.node) if isinstance(n, ast.Assign) and self_attr(n.targets[0]) == 'preprocesses']
     pp = [p for p in sp.params if p != 'self'][0]
-    good = len(st) == 1 and norm(st[0].value).replace(' ', '') == f'[{pp}]ifnotisinstance({pp},list)else{pp}'
-    ctx.check(good, 'C02-D3', f'{sp.key}::stores preprocesses', 'the preprocess list is transformed (reordered / filtered / copied in another order) before it is stored',
-              'preprocess list stored as given (single callable wrapped in a list)', sp.where())
+    reb = [n for n in ast.walk(sp.node) if isinstance(n, ast.Assign) and isinstance(n.targets[0], ast.Name) and n.targets[0].id == pp]
+    kinds_ = [astutil.passthrough_kind(n.value, pp) for n in st + reb]
+    if len(st) != 1 or 'unknown' in kinds_:
+        ctx.undecided('C02-D3', f'{sp.key}::stores preprocesses', 'how the preprocess list is stored is not understood', sp.where())
+    else:
+        bad_ = [n for n, k_ in zip(st + reb, kinds_) if k_ == 'derived']
+        ctx.check(not bad_, 'C02-D3', f'{sp.key}::stores preprocesses', f'the preprocess list is transformed (`{norm(bad_[0])[:70] if bad_ else ""}`: reordered / filtered) before it is stored',
+                  'preprocess list stored as given (single callable wrapped in a list)', sp.where())
     b = cont.methods['batches']
     cs = [c for c in ast.walk(b.node) if isinstance(c, ast.Call) and prog.dotted(b.mod, c.func) == f'{CT}._TracesBatchIterable']
     good = len(cs) == 1 and norm(kw(cs[0], 'ths')) == 'self._ths' and norm(kw(cs[0], 'frame')) == 'self.frame' and norm(kw(cs[0], 'preprocesses')) == 'self.preprocesses'
@@ -306,10 +322,28 @@ def d7(ctx, prog):
         ctx.ok('C02-D7', key, f'each of {len(paths)} paths returns a value or raises', f.where())
     # its result is what run() hands to batches()
     base = prog.need_class(AB, '_BaseAnalysis')
-    run = base.methods['run']
-    txt = norm(run.node).replace(' ', '')
-    ctx.check('batch_size=self._compute_batch_size(container.batch_size)' in txt and 'container.batches(batch_size=batch_size)' in txt, 'C02-D1', f'{run.key}::batch size',
-              'run() does not derive the batch size from the container default through _compute_batch_size', 'batch size = _compute_batch_size(container.batch_size), handed to batches()', run.where())
+    from .. import normalize
+    run = normalize.normal(prog, base.methods['run'], skip={'_batch_loop_compute', '_final_compute', '_compute_batch_size', '_compute_convergence_traces'})
+    cparam = [p_ for p_ in run.params if p_ != 'self'][0]
+    bcalls = [c_ for c_ in ast.walk(run.node) if isinstance(c_, ast.Call) and norm(c_.func) == f'{cparam}.batches']
+    ldefs = {}
+    for n_ in ast.walk(run.node):
+        if isinstance(n_, ast.Assign) and len(n_.targets) == 1 and isinstance(n_.targets[0], ast.Name):
+            ldefs.setdefault(n_.targets[0].id, []).append(n_.value)
+    key_ = f'{run.key}::batch size'
+    if len(bcalls) != 1:
+        ctx.undecided('C02-D1', key_, f'{len(bcalls)} calls of {cparam}.batches() in run()', run.where())
+    else:
+        a_ = argof(bcalls[0], 'batch_size', 0)
+        if isinstance(a_, ast.Name) and len(ldefs.get(a_.id, [])) == 1:
+            a_ = ldefs[a_.id][0]
+        txt = norm(a_).replace(' ', '') if a_ is not None else ''
+        if txt in (f'self._compute_batch_size({cparam}.batch_size)', f'self._compute_batch_size(base_batch_size={cparam}.batch_size)'):
+            ctx.ok('C02-D1', key_, 'batch size = _compute_batch_size(container.batch_size), handed to batches()', run.where())
+        elif txt in (f'{cparam}.batch_size', '', 'None'):
+            ctx.fail('C02-D1', key_, f'run() hands `{txt or "nothing"}` to batches(): the batch size is not derived through _compute_batch_size (a convergence step is ignored)', run.where())
+        else:
+            ctx.undecided('C02-D1', key_, f'batch size expression `{txt[:60]}` not understood', run.where())
 
 
 def run(ctx, prog):
